@@ -91,6 +91,13 @@ func (n *vNet) wire(x, y *Association) int {
 	n.side(x)
 	n.side(y)
 	nextBefore, inflightBefore := x.myNextTSN, x.inflightQueue.size()
+	// chunks that had been acknowledged or given up on before this writer pass
+	var goneBefore []uint32
+	for i := 0; i < x.inflightQueue.size(); i++ {
+		if ch := x.inflightQueue.chunks.At(i); ch.acked || ch.abandoned() {
+			goneBefore = append(goneBefore, ch.tsn)
+		}
+	}
 	pkts := vWriterWake(x)
 	if x.myNextTSN != nextBefore && !vIsShut(x) {
 		// new data left in this pass
@@ -102,6 +109,13 @@ func (n *vNet) wire(x, y *Association) int {
 		lostFwd := false
 		if p != nil {
 			n.checkSackTruth(x, p)
+			for _, ch := range p.chunks {
+				if d, ok := ch.(*chunkPayloadData); ok {
+					for _, t := range goneBefore {
+						vassert(d.tsn != t, "a chunk that was acknowledged or given up on is never put on the wire again")
+					}
+				}
+			}
 			for _, ch := range p.chunks {
 				switch ch.(type) {
 				case *chunkForwardTSN, *chunkIForwardTSN:
@@ -125,6 +139,9 @@ func (n *vNet) wire(x, y *Association) int {
 		}
 		n.idx++
 		c++
+	}
+	if !vIsShut(x) && x.inflightQueue.size() > 0 {
+		vassert(x.t3RTX.isRunning(), "while data is outstanding the retransmission timer is running (nothing is ever left to no timer)")
 	}
 	return c
 }
